@@ -129,7 +129,7 @@ Lemma RTE_align base u : is_pow2 u = true ->
   RTE base (walign u) (ralign (Some base) u) (fun _ => True) u.
 Proof.
   intros Hu. destruct (is_pow2_exp _ Hu) as (k & Hk & ->).
-  intros pos evs rest H. unfold walign in H. unfold ralign.
+  intros pos evs rest H. unfold walign in H. rewrite ralign_eq; cbv zeta.
   assert (Hnz : 2 ^ k <> 0) by (apply N.pow_nonzero; lia).
   destruct (N.eqb_spec (2 ^ k) 0) as [|_]; [contradiction|].
   destruct (pad_align_to_spec pos k Hk) as (Hmod & Hlt & _).
@@ -155,7 +155,7 @@ Qed.
 Lemma ralign_some_ok base u i p i' p' :
   ralign (Some base) u i p = Ok (tt, i', p') -> u <> 0 /\ (base + p') mod u = 0.
 Proof.
-  unfold ralign. destruct (N.eqb_spec u 0) as [|Hu]; [discriminate|].
+  rewrite ralign_eq; cbv zeta. destruct (N.eqb_spec u 0) as [|Hu]; [discriminate|].
   destruct (pad_align_to p u <=? nlen i); [|discriminate].
   destruct (N.eqb_spec ((base + (p + pad_align_to p u)) mod u) 0) as [Hz|]; [|discriminate].
   intros H. inv H. auto.
